@@ -233,7 +233,7 @@ def h_eqn(e):
     e.nontriv()
 
 
-OBJ_LABELS = [('s', 'section', '1'), ('i1', 'item', '1'), ('i2', 'item', '2'), ('f^1', 'caption', '1'), ('t', 'thmenv', '1'), ('e_1', 'equation', '1'), ('s2', 'subsection', '1.1'),
+OBJ_LABELS = [('s', 'section', '1'), ('i1', 'item', '1'), ('i2', 'item', '2'), ('f^1', 'caption', '1'), ('t_1', 'thmenv', '1'), ('e_1', 'equation', '1'), ('s2', 'subsection', '1.1'),
               ('s3', 'subsubsection', None), ('p1', 'paragraph', None)]          # deeper than the numbering depth: no number, but the label names that unit
 
 
@@ -241,11 +241,14 @@ def h_objects(e):
     """labels on a section, list items, a figure caption, a theorem, an equation and a subsection; every reference placed before or after its target (symbolic choice)"""
     doc = TeXDocument()
     before = [e.bool('before_%s' % n) for n, _, _ in OBJ_LABELS]
-    pre = ''.join('\\ref{%s}' % n for (n, _, _), b in zip(OBJ_LABELS, before) if b)
-    post = ''.join('\\ref{%s}' % n for (n, _, _), b in zip(OBJ_LABELS, before) if not b)
-    src = ('\\documentclass{article}\\newtheorem{thm}{Theorem}\\begin{document}' + pre +
+    def ref_of(n):
+        # the theorem's label and its reference pass through user macros inside mathematics
+        return '$\\myref{%s}$' % n if n == 't_1' else '\\ref{%s}' % n
+    pre = ''.join(ref_of(n) for (n, _, _), b in zip(OBJ_LABELS, before) if b)
+    post = ''.join(ref_of(n) for (n, _, _), b in zip(OBJ_LABELS, before) if not b)
+    src = ('\\documentclass{article}\\newtheorem{thm}{Theorem}\\newcommand{\\lab}[1]{\\label{#1}}\\newcommand{\\myref}[1]{\\ref{#1}}\\begin{document}' + pre +
            '\\section{A}\\label{s}x\\begin{enumerate}\\item a\\label{i1}\\item b\\label{i2}\\end{enumerate}'
-           '\\begin{figure}\\caption{C}\\label{f^1}\\end{figure}\\begin{thm}t\\label{t}\\end{thm}\\begin{equation}q_2\\label{e_1}\\end{equation}'
+           '\\begin{figure}\\caption{C}\\label{f^1}\\end{figure}\\begin{thm}t $x\\lab{t_1}$\\end{thm}\\begin{equation}q_2\\label{e_1}\\end{equation}'
            '\\subsection{B}\\label{s2}y \\subsubsection{C}\\label{s3}z \\paragraph{D}\\label{p1}w ' + post + '\\end{document}')
     tex = TeX(doc)
     tex.input(Src(list(src)))
